@@ -206,6 +206,20 @@ func TestRoundTrip(t *testing.T) {
 		r := newRig(t, comp, level, slots)
 		defer r.close()
 		maps := rapid.SliceOfN(mapGen(), 1, 3).Draw(t, "maps")
+		large := 0
+		if rapid.IntRange(0, 15).Draw(t, "large-batch") == 11 {
+			// a flush far larger than usual: one timer series with so many values that the request body passes 1 MiB on
+			// the wire without compression (8 bytes a value), and - the values being hash-like - with lz4 too
+			large = rapid.SampledFrom([]int{132000, 140000, 300000}).Draw(t, "large-values")
+			mix := uint64(rapid.IntRange(1, 1<<30).Draw(t, "large-mix"))
+			vals := make([]float64, large)
+			for i := range vals {
+				vals[i] = float64(((uint64(i)+mix)*0x9E3779B97F4A7C15)>>11) / 1024
+			}
+			big := gostatsd.NewMetricMap(false)
+			big.Timers["large.timer"] = map[string]gostatsd.Timer{gostatsd.FormatTagsKey("h9", gostatsd.Tags{"k:v"}): {Values: vals, SampledCount: float64(large), Timestamp: 3, Source: "h9", Tags: gostatsd.Tags{"k:v"}}}
+			maps = append(maps, big)
+		}
 		want := model.Agg{}
 		types, special := map[gostatsd.MetricType]bool{}, false
 		for _, mm := range maps {
@@ -296,6 +310,9 @@ func TestRoundTrip(t *testing.T) {
 		labels := []string{"roundtrip", "compression=" + comp, fmt.Sprintf("slots=%d", slots)}
 		if special {
 			labels = append(labels, "non-finite-or-sampled")
+		}
+		if large > 0 {
+			labels = append(labels, "body-over-1MiB")
 		}
 		if ev.C().WantSample() {
 			ev.C().Sample(map[string]interface{}{"compression": comp, "level": level, "slots": slots, "maps": describe(maps), "events": len(sent)})
